@@ -280,10 +280,10 @@ func main() {
 	sitesFile := fs.String("sites", "", "sites.json written by seamgen")
 	_ = fs.Parse(os.Args[1:])
 	start := time.Now()
-	histories := []string{"bridge-gov-staking", "gov-failures", "oracle-churn", "tokens-pool-precompiles"}
+	histories := []string{"bridge-gov-staking", "gov-failures", "oracle-churn", "tokens-pool-precompiles", "ties-and-timeouts"}
 	bound, deadline := 1, 240
 	if *tier == "thorough" {
-		histories = []string{"bridge-gov-staking", "gov-failures", "oracle-churn", "tokens-pool-precompiles"}
+		histories = []string{"bridge-gov-staking", "gov-failures", "oracle-churn", "tokens-pool-precompiles", "ties-and-timeouts"}
 		bound, deadline = 2, 1500
 	}
 	if v := os.Getenv("FXMC_DEADLINE"); v != "" {
